@@ -200,6 +200,14 @@ def normalizer_shape(prog, rep, fn, form, rule="normalizer"):
     try:
         outs = m.run(m.start(key, [Str(("input",))]))
     except ip.AnalysisError as e:
+        msg = str(e)
+        if "unicode_normalization::" in msg and "unmodelled call" in msg:
+            what = msg.split("unmodelled call to ", 1)[1].split(" ", 1)[0]
+            rep.ob(rule, "%s uses only is_%s / %s of unicode-normalization" % (fn, form, form), False, "calls %s: another normalisation process than %s (its result differs from %s for some strings)" % (what, form.upper(), form.upper()), b.where(), key="%s|%s|other-process" % (rule, fn))
+            return
+        if "next" in msg or "iteration" in msg:
+            rep.ob(rule, "%s decides from is_%s(s) / the quick check alone whether s is returned unchanged" % (fn, form), False, "the function examines the string's characters itself (%s): a hand-written shortcut or scan is a second definition of 'already in %s', which this analysis cannot confirm" % (msg[:100], form.upper()), b.where(), key="%s|%s|own-scan" % (rule, fn))
+            return
         rep.analysis_error(rule, fn, e, b.where())
         return
     # Semantics, not shape: returning `s.X().collect()` is always right; returning the argument itself is right
